@@ -12,6 +12,9 @@ def _nontrivial(st):
   return None
 
 
+_WORLDS = [0]
+
+
 def methods_via_class(rep):
   """A method registered on a registered class is addressable only through its class name: the GinRegister
   behaviour (register the method, then its class: the method entry is renamed to Class.method) observed through
@@ -23,9 +26,27 @@ def methods_via_class(rep):
       gin = w.gin
       base = dict(nameValid=True, moduleValid=True, bothLists=False, listNotSequence=False, unknownListName=False)
       assert w.register(dict(base, sel='m.meth', obj='meth', method='none', methodName=''), 'register') == 'ok'
-      assert w.register(dict(base, sel='m.K', obj='K', method='m.meth', methodName='meth'), api) == 'ok'
       pre = w.prefix
       mn = w.mname
+      early = _WORLDS[0] % 2 == 1
+      _WORLDS[0] += 1
+      if early:
+        # while its class is not registered the function is an ordinary configurable and may be bound by its own name;
+        # registering the class turns it into a method: the binding follows it to Class.method, the bare name dies
+        gin.bind_parameter(mn + '.x', 3)
+      assert w.register(dict(base, sel='m.K', obj='K', method='m.meth', methodName='meth'), api) == 'ok'
+      if early:
+        rep.evaluations += 1
+        rep.nontrivial_case('method-addressing/bound-before-class/%s' % api)
+        try:
+          got = (gin.query_parameter('K.' + mn + '.x'), getattr(gin.get_configurable(w.objs['K'])(), mn)(), bool(gin.config_str()))
+        except Exception as e:  # pylint: disable=broad-except
+          got = '%s: %s' % (type(e).__name__, e)
+        if got != (3, 3, True):
+          rep.violation(dict(kind='method-addressing', clause='binding-follows-the-method'),
+                        dict(kind='method-addressing', api=api, expected=[3, 3, True], got=got))
+          gin.clear_config()
+          continue
       paths = {
           'string': lambda key: gin.bind_parameter(key + '.x', 5),
           'tuple': lambda key: gin.bind_parameter(('', key, 'x'), 5),
@@ -39,7 +60,12 @@ def methods_via_class(rep):
           rep.evaluations += 1
           rep.nontrivial_case('method-addressing/%s/%s/%s' % (api, how, key.replace(pre, 'm')))
           key_s = key.replace(pre, 'm')
-          before = gin.config_str()
+          try:
+            before = gin.config_str()
+          except Exception as e:  # pylint: disable=broad-except
+            rep.violation(dict(kind='method-addressing', clause='config-str-returns'),
+                          dict(kind='method-addressing', api=api, got='%s: %s' % (type(e).__name__, e)))
+            break
           try:
             fn(key)
             got = 'ok'
